@@ -162,7 +162,55 @@ func (t *ActiveTable) Delete(ctx context.Context, req *regattapb.DeleteRangeRequ
 	return &regattapb.DeleteRangeResponse{Deleted: r.ResponseDeleteRange.Deleted, PrevKvs: r.ResponseDeleteRange.PrevKvs, Header: &regattapb.ResponseHeader{Revision: rev}}, nil
 }
 
+func validateTxnOps(ops []*regattapb.RequestOp) error {
+	for _, op := range ops {
+		switch o := op.GetRequest().(type) {
+		case *regattapb.RequestOp_RequestRange:
+			if len(o.RequestRange.GetKey()) == 0 {
+				return serrors.ErrEmptyKey
+			}
+			if len(o.RequestRange.GetKey()) > key.LatestVersionLen || len(o.RequestRange.GetRangeEnd()) > key.LatestVersionLen {
+				return serrors.ErrKeyLengthExceeded
+			}
+		case *regattapb.RequestOp_RequestPut:
+			if len(o.RequestPut.GetKey()) == 0 {
+				return serrors.ErrEmptyKey
+			}
+			if len(o.RequestPut.GetKey()) > key.LatestVersionLen {
+				return serrors.ErrKeyLengthExceeded
+			}
+			if len(o.RequestPut.GetValue()) > MaxValueLen {
+				return serrors.ErrValueLengthExceeded
+			}
+		case *regattapb.RequestOp_RequestDeleteRange:
+			if len(o.RequestDeleteRange.GetKey()) == 0 {
+				return serrors.ErrEmptyKey
+			}
+			if len(o.RequestDeleteRange.GetKey()) > key.LatestVersionLen {
+				return serrors.ErrKeyLengthExceeded
+			}
+		default:
+			return serrors.ErrUnknownQueryType
+		}
+	}
+	return nil
+}
+
 func (t *ActiveTable) Txn(ctx context.Context, req *regattapb.TxnRequest) (*regattapb.TxnResponse, error) {
+	for _, c := range req.Compare {
+		if len(c.GetKey()) == 0 {
+			return nil, serrors.ErrEmptyKey
+		}
+		if len(c.GetKey()) > key.LatestVersionLen || len(c.GetRangeEnd()) > key.LatestVersionLen {
+			return nil, serrors.ErrKeyLengthExceeded
+		}
+	}
+	if err := validateTxnOps(req.Success); err != nil {
+		return nil, err
+	}
+	if err := validateTxnOps(req.Failure); err != nil {
+		return nil, err
+	}
 	// Do not propose read-only transactions through the log
 	if req.IsReadonly() {
 		return readTable[*regattapb.TxnResponse](t, ctx, true, req)
